@@ -26,7 +26,7 @@ Units == UWM \cup UNW2 \cup UNW1 \cup UIMP \cup UWJ \cup UCTL \cup UWP
 Probe == IF Quick THEN {<< WM(2, S(0, 3)) >>, << NW(1), WR(S(1, 1), "w"), CL >>, << WC(9, S(0, 1), "zero") >>}
          ELSE {<< WM(2, S(0, 3)) >>, << NW(1), WR(S(1, 1), "w"), CL >>, << WP(0) >>, << WC(9, S(0, 1), "zero") >>, << WJ(S(0, 2)) >>}
 
-Extras == {<< >>, << WC(9, S(0, 5), "zero") >>, << WC(10, S(0, 125), "d1") >>, << SD("d1") >>, << SD("d2"), WC(9, S(0, 0), "zero") >>,
+Extras == {<< >>, << WRO >>, << WC(9, S(0, 5), "zero") >>, << WC(10, S(0, 125), "d1") >>, << SD("d1") >>, << SD("d2"), WC(9, S(0, 0), "zero") >>,
            << XC >>, << EC(FALSE) >>, << EC(FALSE), EC(TRUE) >>, << SL(9) >>, << SL(-2) >>, << SL(0) >>, << SL(10) >>}
 Invalid == {<< WM(0, S(0, 1)) >>, << WM(3, S(0, 1)) >>, << WM(7, S(0, 1)) >>, << WM(11, S(0, 1)) >>, << WM(-1, S(0, 1)) >>,
             << WC(1, S(0, 1), "zero") >>, << WC(9, S(0, 126), "zero") >>, << WM(9, S(0, 126)) >>, << WM(8, S(0, 126)) >>,
@@ -35,7 +35,7 @@ Invalid == {<< WM(0, S(0, 1)) >>, << WM(3, S(0, 1)) >>, << WM(7, S(0, 1)) >>, <<
 Closes == {<< NW(1), WC(8, S(0, 2), "zero"), CL >>,     \* also executed as ONE WriteJSON call whose value sends the close while being encoded
            << WC(8, S(0, 2), "zero") >>, << WC(8, S(0, 0), "d1") >>, << WM(8, S(0, 2)) >>, << NW(8), WR(S(0, 2), "w"), CL >>, << WP(3) >>}
 
-Toggles == {<< >>, << EC(FALSE) >>, << EC(TRUE) >>, << SL(9) >>, << SL(0) >>, << SL(-2) >>, << EC(FALSE), SL(5) >>}
+Toggles == {<< >>, << WRO >>, << EC(FALSE) >>, << EC(TRUE) >>, << SL(9) >>, << SL(0) >>, << SL(-2) >>, << EC(FALSE), SL(5) >>}
 
 Mid(X) == {<< NW(1), WR(s1, v) >> \o x \o << WR(s2, v), CL >> : s1 \in {S(0, 1), S(1, 1)}, s2 \in {S(0, 0), S(1, 0)}, v \in V, x \in X}
 
